@@ -43,7 +43,9 @@ T1 == Lit("DateTime", "2020-02-29T00:00:00")  T2 == Lit("DateTime", "2019-12-31T
 ExpandLogic(h) ==
   CASE h = "B" -> { <<0, x>> : x \in { Cmp("eq", nC, IntL(1)), Cmp("lt", nC, mC), Cmp("ge", mC, IntL(0)), Cmp("eq", sC, SL(<<97>>)),
                                        Cmp("eq", nC, NullL), Cmp("ne", sC, NullL), Cmp("eq", bC, BoolL("true")),
-                                       Cmp("in", nC, Lst(<<IntL(1), IntL(3)>>)), C2("contains", sC, SL(<<97>>)) } }
+                                       Cmp("in", nC, Lst(<<IntL(1), IntL(3)>>)), C2("contains", sC, SL(<<97>>)),
+                                       \* list items that are not literals
+                                       Cmp("in", nC, Lst(<<mC, IntL(3)>>)), Cmp("in", nC, Lst(<<Bin("add", mC, IntL(1)), Bin("sub", IntL(0), mC)>>)) } }
                   \cup { <<1, Bool("and", HB, HB)>>, <<1, Bool("or", HB, HB)>>, <<1, Un("not", HB)>>,
                          <<1, Cmp("eq", HB, BoolL("true"))>>, <<1, Cmp("ne", HB, BoolL("false"))>> }
 ExpandArith(h) ==
@@ -75,6 +77,9 @@ ExpandStrings(h) ==
                   \cup { <<0, Cmp(o, HS, p)>> : o \in {"eq", "lt", "ge"}, p \in {SL(<<97, 98>>), SL(<<65, 66>>), SL(<<97, 37, 98>>), SL(<<97, 32, 98>>), SL(<<97, 32, 32, 98>>), uC,
                                                                                 SL(<<97, 37, 50, 48, 98>>), SL(<<37, 54, 49>>)} }     \* 'a%20b' and '%61': not URL-encoded text
                   \cup { <<0, Cmp(o, C1("length", HS), IntL(k))>> : o \in {"eq", "gt"}, k \in {0, 2} }
+                  \* an integer-valued function against a decimal literal (no truncation of the literal)
+                  \cup { <<0, Cmp(o, C1("length", HS), FL("1.5"))>> : o \in {"lt", "ge", "eq"} }
+                  \cup { <<0, Cmp("ge", C2("indexof", HS, SL(<<98>>)), FL("0.5"))>> }
                   \cup { <<0, Cmp(o, C2("indexof", HS, p), IntL(k))>> : o \in {"eq", "lt"}, k \in {0, 1}, p \in {SL(<<98>>), SL(<<37>>), uC} }
                   \cup { <<0, Cmp("in", HS, Lst(<<SL(<<97>>), SL(<<111, Q, 114>>), SL(<<37>>)>>))>> }
                   \cup { <<0, Cmp(o, C1("toupper", HS), SL(<<65, 66>>))>> : o \in {"eq", "ne", "lt"} }
